@@ -192,6 +192,14 @@ func dirNext(c *Ctx, fn *ssa.Function) {
 		}
 		return good
 	}
+	isTake := func(call *ssa.Call) bool {
+		h := call.Call.StaticCallee()
+		if h == nil || call.Call.IsInvoke() || !c.P.isModuleFn(h) || len(call.Call.Args) == 0 || call.Call.Args[0] != ssa.Value(recv) {
+			return false
+		}
+		f, ok := takeFrontHelper(h)
+		return ok && f == filesField(recv.Type())
+	}
 	nPaths := 0
 	var problems []string
 	sawReturnValue, sawSkip, sawReturnNil := false, false, false
@@ -238,6 +246,19 @@ func dirNext(c *Ctx, fn *ssa.Function) {
 					if isPop(x) {
 						pops = append(pops, x)
 					}
+					if isTake(x) {
+						// the unguarded form: takes the front name, so one must be known to be left
+						if emptyTest != "false" {
+							problems = append(problems, p.ipos(x)+": the front name is taken without a test that one is left")
+						}
+						if removed {
+							problems = append(problems, p.ipos(x)+": a second name is taken on one trip through the loop")
+						}
+						removals++
+						removed = true
+						frontReadsBeforeRemoval++
+						frontVal = x
+					}
 				}
 			}
 			var after *ssa.BasicBlock
@@ -281,6 +302,23 @@ func dirNext(c *Ctx, fn *ssa.Function) {
 								emptyTest = "true"
 							} else {
 								emptyTest = "false"
+							}
+						}
+						// len > 0 / len >= 1 (names are left) and len <= 0 / len < 1 (none is)
+						if k, isC := constInt(bo.Y); isC {
+							left, isCmp := false, false
+							switch {
+							case (bo.Op == token.GTR && k == 0) || (bo.Op == token.GEQ && k == 1):
+								left, isCmp = true, true
+							case (bo.Op == token.LEQ && k == 0) || (bo.Op == token.LSS && k == 1):
+								left, isCmp = false, true
+							}
+							if isCmp {
+								if left == val {
+									emptyTest = "false"
+								} else {
+									emptyTest = "true"
+								}
 							}
 						}
 					}
@@ -661,6 +699,9 @@ func dirCtor(c *Ctx, fn *ssa.Function) {
 		}
 	}
 	if theLoop == nil {
+		if dirCtorViaHelper(c, fn, readDir) {
+			return
+		}
 		c.Violated("DIR", fname, "every entry listed", pos, "no range loop over the directory listing")
 		return
 	}
@@ -847,6 +888,178 @@ func dirCtor(c *Ctx, fn *ssa.Function) {
 	c.Check(okSort, "DIR", fname, "names sorted before the source is returned", pos, "sort.Strings(names) dominates every successful return, the source keeps that list and nothing reorders it afterwards", "file names are not sorted lexicographically on every path to the successful return")
 }
 
+// dirCtorViaHelper: the constructor hands the listing to a helper of the module that returns the sorted names, and
+// keeps what it returns. The helper ranges over its parameter, appends every entry's Name() exactly once on every trip
+// to one loop-carried local list, sorts that list after the loop and returns it; the constructor stores the call's
+// result into the source's list of names before every successful return and sorts / reorders nothing afterwards.
+// Emits the two obligations of the in-line form and answers true when the code has this shape.
+func dirCtorViaHelper(c *Ctx, fn *ssa.Function, readDir *ssa.Call) bool {
+	p := c.P
+	fname := shortName(fn)
+	pos := p.pos(fn.Pos())
+	var listing ssa.Value
+	for _, r := range *readDir.Referrers() {
+		if ex, ok := r.(*ssa.Extract); ok && ex.Index == 0 {
+			listing = ex
+		}
+	}
+	if listing == nil || listing.Referrers() == nil {
+		return false
+	}
+	var hcall *ssa.Call
+	var h *ssa.Function
+	var prm *ssa.Parameter
+	for _, r := range *listing.Referrers() {
+		call, ok := r.(*ssa.Call)
+		if !ok || call.Call.IsInvoke() {
+			continue
+		}
+		g := call.Call.StaticCallee()
+		if g == nil || !p.isModuleFn(g) || len(g.Blocks) == 0 || len(g.Params) != len(call.Call.Args) || g.Signature.Results().Len() != 1 || shortType(g.Signature.Results().At(0).Type()) != "[]string" {
+			continue
+		}
+		for i, a := range call.Call.Args {
+			if a == listing {
+				hcall, h, prm = call, g, g.Params[i]
+			}
+		}
+	}
+	if h == nil {
+		return false
+	}
+	var problems []string
+	loops := naturalLoops(h)
+	var theLoop *Loop
+	for _, l := range loops {
+		for b := range l.Blocks {
+			for _, in := range b.Instrs {
+				if ia, ok := in.(*ssa.IndexAddr); ok && ia.X == ssa.Value(prm) {
+					if ok, _ := isRangeIndexOver(ia.Index, ia.X); ok {
+						theLoop = l
+					}
+				}
+			}
+		}
+	}
+	if theLoop == nil || len(loops) != 1 {
+		return false
+	}
+	var acc *ssa.Phi
+	for _, in := range theLoop.Header.Instrs {
+		if phi, ok := in.(*ssa.Phi); ok && shortType(phi.Type()) == "[]string" {
+			acc = phi
+		}
+	}
+	if acc == nil {
+		return false
+	}
+	acyclicPaths(theLoop.Header, func(path []*ssa.BasicBlock, looped bool) {
+		if !looped {
+			return
+		}
+		appends := 0
+		for _, b := range path {
+			for _, in := range b.Instrs {
+				if x, ok := in.(*ssa.Call); ok && isBuiltin(x, "append") && shortType(x.Type()) == "[]string" && reachesPhi(x.Call.Args[0], acc, theLoop, 0) {
+					carried := false
+					for _, ed := range acc.Edges {
+						if ed == ssa.Value(x) {
+							carried = true
+						}
+					}
+					if !carried {
+						problems = append(problems, p.ipos(x)+": an appended list is dropped")
+					}
+					if hasNameCall(appendedElem(x)) {
+						appends++
+					} else {
+						problems = append(problems, p.ipos(x)+": appended value is not the entry's Name()")
+					}
+				}
+			}
+		}
+		if appends != 1 {
+			problems = append(problems, fmt.Sprintf("a trip through the listing loop appends %d names (an entry is skipped or duplicated)", appends))
+		}
+	})
+	// the accumulator starts empty
+	for i, ed := range acc.Edges {
+		if theLoop.Blocks[theLoop.Header.Preds[i]] {
+			continue
+		}
+		if !isNilConst(ed) {
+			if ms, ok := ed.(*ssa.MakeSlice); !ok || func() bool { k, isC := constInt(ms.Len); return !isC || k != 0 }() {
+				problems = append(problems, "the list of names does not start empty")
+			}
+		}
+	}
+	c.Check(len(problems) == 0, "DIR", fname, "every entry listed", pos, "each directory entry's Name() is appended exactly once (in "+h.Name()+")", strings.Join(dedup(problems), "; "))
+	// sorted after the loop, and what is returned is that list
+	var sortCall *ssa.Call
+	for _, b := range h.Blocks {
+		if theLoop.Blocks[b] {
+			continue
+		}
+		for _, in := range b.Instrs {
+			if call, ok := in.(*ssa.Call); ok && calleeName(call) == "sort.Strings" && call.Call.Args[0] == ssa.Value(acc) {
+				sortCall = call
+			}
+		}
+	}
+	okSort := sortCall != nil && !canReach(sortCall.Block(), theLoop.Header)
+	if okSort {
+		for _, b := range h.Blocks {
+			ret, isRet := b.Instrs[len(b.Instrs)-1].(*ssa.Return)
+			if !isRet {
+				continue
+			}
+			if ret.Results[0] != ssa.Value(acc) || !dominatesInstr(sortCall, ret) {
+				okSort = false
+			}
+		}
+	}
+	// the constructor keeps the result: stored into the field before every successful return, nothing else stored there
+	// afterwards and no other sort of it
+	if okSort {
+		var keep *ssa.Store
+		for _, b := range fn.Blocks {
+			for _, in := range b.Instrs {
+				switch x := in.(type) {
+				case *ssa.Store:
+					fa, ok := x.Addr.(*ssa.FieldAddr)
+					if !ok || typeName(fa.X.Type()) != "journal.DirectoryGtfsrtSource" || fieldName(fa.X.Type(), fa.Field) != filesField(fa.X.Type()) {
+						continue
+					}
+					if x.Val == ssa.Value(hcall) {
+						keep = x
+					} else if canReach(hcall.Block(), b) {
+						okSort = false
+					}
+				case *ssa.Call:
+					if n := calleeName(x); (isSortCall(n) || n == "sort.Strings") && canReach(hcall.Block(), b) {
+						okSort = false
+					}
+				}
+			}
+		}
+		if keep == nil {
+			okSort = false
+		} else {
+			for _, b := range fn.Blocks {
+				ret, isRet := b.Instrs[len(b.Instrs)-1].(*ssa.Return)
+				if !isRet || isNilConst(ret.Results[0]) {
+					continue
+				}
+				if !dominatesInstr(keep, ret) {
+					okSort = false
+				}
+			}
+		}
+	}
+	c.Check(okSort, "DIR", fname, "names sorted before the source is returned", pos, "sort.Strings(names) in "+h.Name()+" dominates its return of that list; the constructor keeps the result before every successful return and nothing reorders it afterwards", "file names are not sorted lexicographically on every path to the successful return")
+	return true
+}
+
 func hasNameCall(v ssa.Value) bool {
 	found := false
 	var walk func(v ssa.Value, d int)
@@ -984,4 +1197,78 @@ func madeWithLenOf(s, listing ssa.Value) (owner ssa.Value, ok bool) {
 		}
 	}
 	return al, n > 0
+}
+
+// takeFrontHelper: h(src) T: loop-free; on every path it reads element 0 of one slice field of its pointer parameter
+// and then stores field[1:] into that field, exactly once, and stores nothing else into it. It is the unguarded form
+// of popFrontHelper: the caller must know the list to be non-empty (checked where it is called, and by the bounds
+// rule inside the helper). Returns the field's name.
+func takeFrontHelper(h *ssa.Function) (string, bool) {
+	if h == nil || len(h.Blocks) == 0 || len(h.Params) == 0 || len(naturalLoops(h)) > 0 {
+		return "", false
+	}
+	recv := h.Params[0]
+	if _, isPtr := recv.Type().Underlying().(*types.Pointer); !isPtr {
+		return "", false
+	}
+	field := ""
+	okAll, nPaths := true, 0
+	isField := func(addr ssa.Value) (string, bool) {
+		fa, ok := addr.(*ssa.FieldAddr)
+		if !ok || fa.X != ssa.Value(recv) {
+			return "", false
+		}
+		if _, isSl := deref(fa.Type()).Underlying().(*types.Slice); !isSl {
+			return "", false
+		}
+		return fieldName(fa.X.Type(), fa.Field), true
+	}
+	isLoadOf := func(v ssa.Value, f string) bool {
+		ld, ok := v.(*ssa.UnOp)
+		if !ok || ld.Op != token.MUL {
+			return false
+		}
+		g, ok := isField(ld.X)
+		return ok && g == f
+	}
+	enumPaths(h, func(path []*ssa.BasicBlock) {
+		nPaths++
+		removals, frontRead := 0, false
+		for _, b := range path {
+			for _, in := range b.Instrs {
+				switch x := in.(type) {
+				case *ssa.UnOp:
+					if ia, ok := x.X.(*ssa.IndexAddr); ok && x.Op == token.MUL {
+						if ld, isLd := ia.X.(*ssa.UnOp); isLd {
+							if f, isF := isField(ld.X); isF {
+								if k, isC := constInt(ia.Index); isC && k == 0 && removals == 0 && (field == "" || field == f) {
+									field, frontRead = f, true
+								}
+							}
+						}
+					}
+				case *ssa.Store:
+					f, isF := isField(x.Addr)
+					if !isF {
+						continue
+					}
+					sl, ok := x.Val.(*ssa.Slice)
+					one := int64(-1)
+					if ok && sl.Low != nil {
+						one, _ = constInt(sl.Low)
+					}
+					if ok && (field == "" || field == f) && isLoadOf(sl.X, f) && one == 1 && sl.High == nil && sl.Max == nil && frontRead {
+						field = f
+						removals++
+					} else {
+						okAll = false
+					}
+				}
+			}
+		}
+		if removals != 1 {
+			okAll = false
+		}
+	})
+	return field, okAll && nPaths > 0 && field != ""
 }
